@@ -71,6 +71,11 @@ def main(argv):
         cid, start, n = argv[1], int(argv[2]), int(argv[3])
         print(json.dumps(digests(cid, start, n)))
         return 0
+    if what == "_c14":
+        from .checks import C14
+
+        print(json.dumps(C14.digests_of(json.load(open(argv[1])))))
+        return 0
     if what == "setup":
         import flumine  # noqa
 
